@@ -292,7 +292,13 @@ let () =
                | [i; k] -> TProbe (nat_of_int (int_of_string i), nat_of_int (int_of_string k), nat_of_int (int_of_string j))
                | _ -> TRun O)
             | None -> TRun (nat_of_int (int_of_string x)) in
-          let toks = if spec = "-" then [] else List.map tok_of (String.split_on_char ',' spec) in
+          (* `i<` (run thread i's transaction and hold the thread right after it) is `i` for the model, whose
+             threads have nothing to do between a transaction and the next; `i>` (let it go on) is nothing *)
+          let strip (x : string) : string option =
+            let n = String.length x in
+            if n > 0 && x.[n - 1] = '>' then None
+            else if n > 0 && x.[n - 1] = '<' then Some (String.sub x 0 (n - 1)) else Some x in
+          let toks = if spec = "-" then [] else List.map tok_of (List.filter_map strip (String.split_on_char ',' spec)) in
           let (rs, s') = rig_results st.backend st.s st.conc_reqs toks in
           st.s <- s'; st.conc_reqs <- []; st.conc_n <- 0;
           List.iter (fun r -> match r with
